@@ -624,14 +624,38 @@ fn one(rep: &Report, c: &Case, selftest: bool, verbose: bool) {
         println!("case {}: {} files, {} rows read back, statements:\n{}", c.idx, out.files.len(), observed.len(), stmts.join("\n"));
     }
     if let Some(kind) = multiset_diff(&observed, &expected) {
-        // NULL written as NULLX but read back without the regex: strings come back as 'NULLX'
-        let nullx: Vec<Row> = expected.iter().map(|r| r.iter().enumerate().map(|(i, v)| if v.is_null() && c.cols[i].1 == CT::Str && !(c.part_by.contains(&i) && !c.keep_partition_cols) { Value::Str("NULLX".into()) } else { v.clone() }).collect()).collect();
+        // classified deviations, alone or combined: (a) NULL strings written as NULL_VALUE 'NULLX' come
+        // back as the string 'NULLX' (NULL_REGEX is not applied by the scan); (b) NULL partition values
+        // are written as the type's default
+        let with_nullx = |rows: Vec<Row>| -> Vec<Row> {
+            rows.into_iter().map(|r| r.into_iter().enumerate().map(|(i, v)| if v.is_null() && c.cols[i].1 == CT::Str && !(c.part_by.contains(&i) && !c.keep_partition_cols) { Value::Str("NULLX".into()) } else { v }).collect()).collect()
+        };
+        let nullx_applicable = c.fmt == Fmt::Csv && c.csv.null_spelling.is_some();
+        let mut classified: Option<String> = None;
+        for (use_nullx, use_default) in [(true, false), (false, true), (true, true)] {
+            if (use_nullx && !nullx_applicable) || (use_default && !has_null_part) {
+                continue;
+            }
+            let mut model = expected_rows(c, use_default);
+            if use_nullx {
+                model = with_nullx(model);
+            }
+            if multiset_diff(&observed, &model).is_none() {
+                let mut parts = vec![];
+                if use_nullx {
+                    parts.push("csv-null-regex-not-applied-by-scan");
+                }
+                if use_default {
+                    parts.push("null-partition-value-written-as-default");
+                }
+                classified = Some(parts.join("+"));
+                break;
+            }
+        }
         if escape_char_in_data(c) {
             violation(rep, "csv-writer-does-not-escape-the-escape-character", wit("CSV written with ESCAPE and DOUBLE_QUOTE=false while a string contains the escape character; read-back differs", Some(&observed), Some(&expected), &out.files));
-        } else if c.fmt == Fmt::Csv && c.csv.null_spelling.is_some() && multiset_diff(&observed, &nullx).is_none() {
-            violation(rep, "csv-null-regex-not-applied-by-scan", wit("NULL strings written as NULL_VALUE 'NULLX' read back as the string 'NULLX' although NULL_REGEX '^NULLX$' is set on the table", Some(&observed), Some(&expected), &out.files));
-        } else if has_null_part && multiset_diff(&observed, &expected_rows(c, true)).is_none() {
-            violation(rep, "null-partition-value-written-as-default", wit("a NULL partition value is written as the type's default ('' / 0 / false / 1970-01-01) and reads back as that value", Some(&observed), Some(&expected), &out.files));
+        } else if let Some(sig) = classified {
+            violation(rep, &sig, wit("read-back differs from the source rows exactly by the modelled deviation(s): NULL strings written as NULL_VALUE 'NULLX' read back as 'NULLX' although NULL_REGEX '^NULLX$' is set / a NULL partition value is written as the type's default ('' / 0 / false / 1970-01-01)", Some(&observed), Some(&expected), &out.files));
         } else {
             violation(rep, &format!("readback-{kind}/{tag}"), wit("fresh-session read-back != source rows", Some(&observed), Some(&expected), &out.files));
         }
